@@ -117,6 +117,7 @@ MUTANTS = [
     ('M69', U, "            joints.push(joint_data);\n        }\n\n        collect_joints(child, joints, joint_names)?;", "            joints.push(joint_data);\n        } else {\n            collect_joints(child, joints, joint_names)?;\n        }", 'C20', 'R20.5', 'recursion only into non-joint children'),
     ('M70', U, "                        opw_parameters.a2 = -value;", "                        opw_parameters.a2 = value;", 'C20', 'R20.4', 'a2 sign lost'),
 ]
+MUTANTS.append(('M71', K, 'const ANGULAR_TOLERANCE: f64 = 1E-6;', 'const ANGULAR_TOLERANCE: f64 = 1E-2;', 'C01', 'R01.2', 'angular tolerance 0.57 degrees'))
 MUTANTS = [m for m in MUTANTS if m[0] not in ('M34',)]
 MUTANTS.append(('M34', T, "    fn constraints(&self) -> &Option<Constraints> {\n        self.robot.constraints()\n    }    \n}\n\n// Define the Cart",
                 "    fn constraints(&self) -> &Option<Constraints> {\n        &None\n    }    \n}\n\n// Define the Cart", 'C08', 'R08.4', 'Base reports no limits'))
@@ -140,4 +141,7 @@ KEEP = [
      ['C16'], '`-=` expanded and factors commuted'),
     ('K08', J, "        let delta_position = (perturbed_position - current_position) / epsilon;", "        let difference = perturbed_position - current_position;\n        let delta_position = difference / epsilon;", ['C15'], 'temporary introduced'),
     ('K09', F, "        let b1 = v1.normalize();\n        let b2 = v1.cross(&v2).normalize();", "        let n = v1.cross(&v2);\n        let b1 = v1.normalize();\n        let b2 = n.normalize();", ['C17'], 'cross product hoisted'),
+    ('K11', None, [(K, 'sols', 'cands', True), (K, 'theta:', 'table:', True), (K, 'theta[si]', 'table[si]', True),
+                   (CA, 'trace', 'wpts', True), (CO, 'new_joints', 'cand', True), (U, 'opw_parameters', 'out', True)],
+     None, ['C01', 'C02', 'C04', 'C06', 'C12', 'C14', 'C20'], 'local variables renamed in four files'),
 ]
